@@ -55,6 +55,23 @@ class CFG:
                 out.append(e)
         return out
 
+    @staticmethod
+    def local_walk(e):
+        """walk an element's tree without descending into sub-expressions that clang evaluates in other
+        blocks: arms/condition of ?:, operands of && and ||, bodies of statement expressions"""
+        stack = [e]
+        while stack:
+            x = stack.pop()
+            yield x
+            k = x['k']
+            if k in ('ConditionalOperator', 'BinaryConditionalOperator', 'StmtExpr'):
+                continue
+            if k == 'BinaryOperator' and x.get('op') in ('&&', '||'):
+                continue
+            ks = F.kids(x)
+            for c in reversed(ks):
+                stack.append(c)
+
     def block_nodes(self, B):
         """all distinct AST nodes evaluated in block B, in evaluation-list order"""
         seen = set()
